@@ -591,11 +591,60 @@ def i_string_ops(c):
             f"print({r.choice([s + '.upper()', s + '.split(' + chr(39) + ',' + chr(39) + ')', 'len(' + s + ')', chr(39) + '-' + chr(39) + '.join(' + s + '.split())', s + '[::-1]', 'f' + chr(39) + '{' + s + '!r}' + chr(39), s + ' * 2', 'sorted(' + s + ')[:3]'])})"]
 
 
+def i_const_iter_loop(c):
+    """A loop over a constant iterable that may be empty (also lazily: zip / reversed / map / filter objects are truthy even when empty) with a
+    return / break in its body, and live code after it: is_blocking must not call the loop 'always entered'."""
+    r = c.r
+    f, a = c.name("scan"), c.name("a")
+    it = r.choice(["[]", "()", "''", "range(0)", "zip([], [])", "reversed(())", "map(str, [])", "filter(None, [])", "enumerate([])", "iter([])", "{}.items()", "sorted([])", "set()",
+                   "[1]", "zip([1], [2])", "reversed((1, 2))", "map(str, [3])", "filter(None, [0, 4])", "range(2)", "'ab'", "enumerate('x')", "filter(None, [0])", "range(3, 1)"])
+    body = r.choice([[f"return ('first', {a})"], [f"print('in', {a})", "break"], [f"print('in', {a})", f"return {a}"], [f"if {a}:"] + ind([f"return {a}"]) + ["continue"]])
+    lines = [f"def {f}():"] + ind([f"for {a} in {it}:"] + ind(body))
+    if r.random() < 0.3:
+        lines += ind(["else:"] + ind(["print('exhausted')"]))
+    lines += ind([r.choice(["return 'nothing'", "print('after')\n    return 'tail'", f"{a} = 'none'\n    return {a}"])])
+    return lines + ["", f"print({f}())"]
+
+
+def i_loop_carried(c):
+    """A variable assigned at the end of a loop body and read at the top of the next iteration (module level and inside a function, while and for)."""
+    r = c.r
+    prev, i, out = c.name("prev"), c.name("i"), c.name("out")
+    kind = r.choice(["while", "while", "for", "while_func"])
+    upd = r.choice([f"{prev} = {i} * 2", f"{prev} = {prev} + {i}", f"{prev} = {i}"])
+    if kind == "for":
+        lines = [f"{prev} = 0", f"{out} = []", f"for {i} in range({r.randint(2, 5)}):"] + ind([f"{out}.append({prev})", upd]) + [f"print({out})"]
+    else:
+        lines = [f"{prev} = 0", f"{i} = 0", f"{out} = []", f"while {i} < {r.randint(2, 5)}:"] + ind([f"{out}.append({prev})", f"{i} += 1", upd]) + [f"print({out})"]
+        if r.random() < 0.4:
+            lines[-1] = f"print({out}, {i})"
+    if kind == "while_func":
+        fn = c.name("carry")
+        lines = [f"def {fn}():"] + ind(lines[:-1] + [f"return {out}"]) + ["", f"print({fn}())"]
+    return lines
+
+
+def i_constrained_range(c):
+    """range(...) filtered by comparisons with constants, the variable on either side of the operator (simplify_constrained_range)."""
+    r = c.r
+    x = c.name("x")
+    lo, hi = r.randint(-2, 3), r.randint(4, 10)
+    rng = r.choice([f"range({hi})", f"range({lo}, {hi})", f"range({lo}, {hi}, 1)", f"range({lo}, {hi}, 2)"])
+    def cmp_():
+        k, op = r.randint(-1, 9), r.choice(["<", "<=", ">", ">=", "==", "!="])
+        return f"{x} {op} {k}" if r.random() < 0.5 else f"{k} {op} {x}"
+    cond = cmp_() if r.random() < 0.6 else f"{cmp_()} {r.choice(['and', 'or'])} {cmp_()}"
+    form = r.choice(["[{x} for {x} in {rng} if {cond}]", "list({x} for {x} in {rng} if {cond})", "sum({x} for {x} in {rng} if {cond})", "[{x} * 2 for {x} in {rng} if {cond}]",
+                     "{{{x} for {x} in {rng} if {cond}}} == set()", "[{x} for {x} in {rng} if {cond} if {x} != 1]"])
+    return [f"print({form.format(x=x, rng=rng, cond=cond)})"]
+
+
 IDIOMS = {f.__name__[2:]: f for f in [
     i_list_append_loop, i_dict_loop, i_dict_literal_updates, i_collection_add_update, i_if_return_bool, i_redundant_else, i_swap_if_else, i_early_return, i_early_continue,
     i_filter_map_lambda, i_for_filter, i_comprehension_forms, i_literal_functions, i_unused_and_pointless, i_dead_code, i_singleton_compare, i_boolean_logic, i_staticmethod_class,
     i_unconventional_class, i_duplicate_functions, i_imports, i_overused_constant, i_assign_return, i_context_manager, i_raise_from, i_zip_enumerate, i_defaultdict,
     i_move_before_loop, i_nested_loops, i_logging, i_negated_compare, i_lambda_redundant, i_commented_code, i_while_counter, i_invalid_escape, i_string_ops, i_numpy,
+    i_const_iter_loop, i_loop_carried, i_constrained_range,
 ]}
 NEEDS = {"numpy": "numpy"}
 
